@@ -533,6 +533,16 @@ func GenWorldCfg(g *Rng, opt GenOpts) (World, map[string]any) {
 		x.addText("src/doc/README.md", "# readme\nhello\n", 0o644)
 		add(gContent{m: map[string]any{"src": "@SRC@src/doc/README.md", "dst": "/usr/share/doc/app/README.md", "type": Pick(g, []string{"doc", "readme", "license", "licence"})}, refPath: "src/doc/README.md", refKind: "content", single: true})
 	}
+	if x.feat("disk_special_mode", 0.15) {
+		// a source that carries setuid / setgid / sticky on disk (modes are
+		// taken from the source when file_info gives none): the entries for
+		// which "not an ordinary file" short cuts apply
+		x.addFile("src/bin/helper", x.sizeSmall(), Pick(g, []uint32{0o4755, 0o2755, 0o1755, 0o6755}))
+		// (addressed to one packager, never apk: apk cannot store such a mode
+		// taken from disk and says so - "PAX cannot encode Mode" - which is
+		// loud, hence no business of these checks)
+		add(gContent{m: map[string]any{"src": "@SRC@src/bin/helper", "dst": "/usr/bin/app-helper", "packager": Pick(g, []string{"ipk", "ipk", "deb", "rpm", "archlinux"})}, refPath: "src/bin/helper", refKind: "content", single: true})
+	}
 	if x.feat("per_packager", 0.4) {
 		p := Pick(g, allFormats)
 		x.addFile("src/only/one.bin", x.sizeSmall(), 0o755)
@@ -805,6 +815,11 @@ func GenWorldCfg(g *Rng, opt GenOpts) (World, map[string]any) {
 		x.feats = append(x.feats, "debc:"+debBlock["compression"].(string))
 		if g.Bool(0.4) {
 			debBlock["fields"] = map[string]any{"Bugs": "https://verif.invalid/bugs", "X-Custom": "v"}
+			if g.Bool(0.3) {
+				// two names that differ only in case: both are written, in
+				// sorted order (whatever a reader of the package makes of it)
+				debBlock["fields"].(map[string]any)["x-custom"] = "w"
+			}
 		}
 		if g.Bool(0.3) {
 			debBlock["triggers"] = map[string]any{"interest": []any{"some-trigger"}, "activate_noawait": []any{"other-trigger"}}
@@ -853,6 +868,10 @@ func GenWorldCfg(g *Rng, opt GenOpts) (World, map[string]any) {
 		ipkBlock["abi_version"] = "3"
 		ipkBlock["tags"] = []any{"t1", "t2"}
 		ipkBlock["fields"] = map[string]any{"Bugs": "https://verif.invalid/bugs", "Priority": "should-be-stripped", "Zz-Custom": "z"}
+		if g.Bool(0.4) {
+			ipkBlock["fields"].(map[string]any)["zz-custom"] = "lower"
+			ipkBlock["fields"].(map[string]any)["BUGS"] = "https://verif.invalid/BUGS"
+		}
 		if g.Bool(0.5) {
 			ipkBlock["alternatives"] = []any{map[string]any{"priority": 10, "target": "/usr/bin/app", "link_name": "/usr/bin/app-alt"}}
 		}
